@@ -127,6 +127,30 @@ def error_facts(src):
     return tpl, status, desc
 
 
+SESSION_CALLEES = {"SequenceProxy", "BaseProxyDap2", "BaseProxyDap4", "ServerFunction", "ServerFunctionResult",
+                   "DAPHandler", "open_dods_url", "GET", "self.__class__", "Functions"}
+
+
+def session_facts(path):
+    """every construction of a proxy / every request made on behalf of a dataset passes a session on"""
+    out = []
+    tree = ast.parse(open(path).read())
+    for n in ast.walk(tree):
+        if isinstance(n, ast.Call):
+            name = call_name(n)
+            if name not in SESSION_CALLEES:
+                continue
+            passed = False
+            for kw in n.keywords:
+                if kw.arg == "session" and ast.unparse(kw.value).split(".")[-1] == "session":
+                    passed = True
+            for a in n.args:
+                if ast.unparse(a).split(".")[-1] == "session":
+                    passed = True
+            out.append(("%s:%d %s" % (os.path.basename(path), n.lineno, name), passed))
+    return out
+
+
 def main():
     lines = ["(* GENERATED by tools/gen_facts.py from %s - do not edit *)" % "src/pydap",
              "From PydapV Require Import Base Handler.", "Open Scope string_scope.", ""]
@@ -155,6 +179,13 @@ def main():
     lines.append("Definition error_template : string := %s." % coq_string(tpl or ""))
     lines.append("Definition error_status : string := %s." % coq_string(status or ""))
     lines.append("Definition error_description : string := %s." % coq_string(desc or ""))
+    try:
+        sf = session_facts(os.path.join(REPO, "src/pydap/handlers/dap.py")) + session_facts(os.path.join(REPO, "src/pydap/client.py"))
+    except Exception:
+        sf = [("extraction failed", False)]
+    lines.append("Definition session_forwarding : list (string * bool) := [")
+    lines.append(";\n".join("  (%s, %s)" % (coq_string(t), str(b).lower()) for t, b in sf))
+    lines.append("].")
     text = "\n".join(lines) + "\n"
     os.makedirs(os.path.dirname(OUT), exist_ok=True)
     old = open(OUT).read() if os.path.exists(OUT) else None
